@@ -15,7 +15,7 @@ Open Scope Z_scope.
 Theorem C06_stream_roundtrip : forall nm F te tm ty_of vs st st', Forall (top_ok nm F te tm ty_of) vs ->
   enm st = nm -> cls_ok F (ecls st) -> write_items vs st = Ok st' ->
   cls_ok F (ecls st') /\ enm st' = enm st /\ grows st st' /\
-  exists bs ds cells, ebytes st' = ebytes st ++ bs /\ dgs ty_of (erefs st) vs ds cells (erefs st') /\
+  exists bs ds cells, ebytes st' = ebytes st ++ bs /\ dgs te ty_of (erefs st) vs ds cells (erefs st') /\
     (small st' -> forall dst rest, Inv ty_of st dst ->
        exists dst', Inv ty_of st' dst' /\ dheap dst' = dheap dst ++ cells /\
        forall f, (need_ditems vs <= f)%nat -> read_n te tm f (length vs) dst (bs ++ rest) = Ok (ds, rest, dst')).
